@@ -714,3 +714,80 @@ def text_level_laws(ctx):
                 fails.append(dict(law='relation chain frozen right to left', selector=''.join(chain)))
         sv.purge()
     return res('C01-parser-composition', n, n, fails, f'{len(plain)}^2 pairs for lists/:is/:where/:matches/:not, {len(A)}^2 pairs for :has(), 3 relation chains', t0=t0)
+
+
+# ------------------------------------------------------------------------------------------------ C19.O6 / C13.O4: value lists
+
+def ref_unescape(s, string):
+    """css-syntax 4.3.7 on one raw item (reference, independent of css_parser.css_unescape)."""
+    out = []
+    i = 0
+    while i < len(s):
+        c = s[i]
+        if c != '\\':
+            out.append(c)
+            i += 1
+            continue
+        i += 1
+        if i >= len(s):
+            out.append('�')
+            break
+        j = i
+        while j < len(s) and j - i < 6 and s[j] in '0123456789abcdefABCDEF':
+            j += 1
+        if j > i:
+            cp = int(s[i:j], 16)
+            out.append('�' if cp == 0 or cp > 0x10FFFF else chr(cp))
+            if s[j:j + 2] == '\r\n':
+                j += 2
+            elif j < len(s) and s[j] in ' \t\n\r\f':
+                j += 1
+            i = j
+        elif s[i] in '\n\r\f':
+            if string:
+                i += 2 if s[i:i + 2] == '\r\n' else 1      # escaped newline inside a string: continuation, nothing
+            else:
+                out.append('\\')                            # not an escape outside strings (cannot occur in a token)
+        else:
+            out.append(s[i])
+            i += 1
+    return ''.join(out)
+
+
+def value_lists(ctx):
+    """:-soup-contains() / :lang() store exactly [decode(item) for item in the comma-separated list], each item decoded once."""
+    import soupsieve as sv
+    t0 = time.time()
+    fails = []
+    n = 0
+    raw_items = [('"aaa"', 'aaa', True), ("'b b'", 'b b', True), ('ccc', 'ccc', False), ('a\\2c b', 'a,b', False), ('"\\5c 41"', '\\41', True), ('"\\\\41"', '\\41', True),
+                 ('"x\\"y"', 'x"y', True), ("'it\\'s'", "it's", True), ('"a,b"', 'a,b', True), ('\\61 b', 'ab', False), ('"\\\nq"', 'q', True), ('d\\,e', 'd,e', False),
+                 ('"\\110000"', '�', True), ('"(\\29"', '()', True), ('\\"k', '"k', False), ('"\\5c\\5c"', '\\\\', True), ('"\\5c 5c "', '\\5c ', True)]
+    seps = [',', ' , ', ',\n', '/**/,/**/', ' ,']
+    rnd = random.Random(ctx['seed'])
+    combos = [(a,) for a in raw_items] + [(a, b) for a in raw_items for b in raw_items if rnd.random() < (0.25 if ctx['tier'] == 'quick' else 1.0)]
+    with warnings.catch_warnings():
+        warnings.simplefilter('ignore')
+        for kind in (':-soup-contains', ':-soup-contains-own', ':contains', ':lang'):
+            for combo in combos:
+                sep = rnd.choice(seps)
+                q = f'{kind}(' + sep.join(x[0] for x in combo) + ')'
+                n += 1
+                want = tuple(ref_unescape(x[0][1:-1] if x[2] else x[0], x[2]) for x in combo)
+                assert want == tuple(x[1] for x in combo), (combo, want)
+                try:
+                    s0 = sv.compile(q).selectors[0]
+                except Exception as ex:
+                    fails.append(dict(selector=q, error=f'{type(ex).__name__}: {str(ex).splitlines()[0][:80]}'))
+                    continue
+                if kind == ':lang':
+                    got = tuple(s0.lang[0].languages)
+                    own_ok = True
+                else:
+                    got = tuple(s0.contains[0].text)
+                    own_ok = s0.contains[0].own == (kind == ':-soup-contains-own')
+                if got != want or not own_ok:
+                    fails.append(dict(selector=q, stored=[ascii(x) for x in got], expected=[ascii(x) for x in want]))
+            sv.purge()
+    return res('C19-value-lists', n, len(combos), fails, f'{len(raw_items)} raw items (quoted/bare, escaped comma/backslash/quote, continuation, out-of-range escape), singles and seeded pairs, '
+               f'5 separators, 4 pseudo-classes', t0=t0)
